@@ -417,7 +417,7 @@ func runC12(c *core.Ctx) {
 	}
 	n2 := c.PerShard(c.N(160000, 12000000))
 	for i := 0; i < n2; i++ {
-		src := wl.Mix(r, corpus)
+		src := mixDoc(r, corpus)
 		one(src, i)
 		if c.WantSample() && i%5000 == 2 {
 			c.Sample(map[string]any{"input": q(src), "protected": true})
